@@ -157,10 +157,11 @@ type harness struct {
 	reorgs  []reorgEv
 	events  int // bumped on every recorded observation (quiescence detection)
 
-	headEvents map[string]int // head events injected per class (early-fetch cases)
-	fetchOnly  int            // FetchOnly (early attestation data fetch) invocations
-	bnCalls    map[string]int // kind/ok|fail|corrupt
-	served     map[string]int // foreign / extra entries served to the scheduler side
+	headEvents map[string]int  // head events injected per class (early-fetch cases)
+	fetchOnly  int             // FetchOnly (early attestation data fetch) invocations
+	bnCalls    map[string]int  // kind/ok|fail|corrupt
+	prefetched map[string]bool // kind/epoch fetched by the foreign cache user
+	served     map[string]int  // foreign / extra entries served to the scheduler side
 	probeCalls int
 
 	gateCh chan gateEv
@@ -175,18 +176,29 @@ type harness struct {
 func newHarness(sc *scenario, clock *clockwork.FakeClock) *harness {
 	return &harness{
 		sc: sc, clock: clock, frame: -1, curSlot: sc.S0, nth: map[kind]int{},
-		bnCalls: map[string]int{}, served: map[string]int{}, headEvents: map[string]int{},
+		bnCalls: map[string]int{}, served: map[string]int{}, headEvents: map[string]int{}, prefetched: map[string]bool{},
 		gateCh: make(chan gateEv), done: make(chan struct{}),
 	}
 }
 
 var errInjected = errors.New("injected beacon node failure")
 
+// foreignKey marks the context of calls made by the foreign user of the duties cache.
+type foreignKey struct{}
+
 // bnDecide consults the failure plan for one beacon node call.
-func (h *harness) bnDecide(k kind) (fail, corrupt bool, head uint64) {
+func (h *harness) bnDecide(ctx context.Context, k kind, epoch uint64) (fail, corrupt bool, head uint64) {
 	h.mu.Lock()
 	defer h.mu.Unlock()
 	slot := h.curSlot
+	if ctx.Value(foreignKey{}) != nil {
+		// another user of the duties cache (validator client through validatorapi, tracker): its fetches are
+		// not the scheduler's and are left alone, so that errors hit exactly the scheduler's own fetches
+		h.bnCalls[string(k)+"/foreign-user-ok"]++
+		h.prefetched[fmt.Sprintf("%s/%d", k, epoch)] = true
+
+		return false, false, slot
+	}
 	n := h.nth[k]
 	h.nth[k]++
 	m, ok := h.sc.Fail[slot]
@@ -204,6 +216,9 @@ func (h *harness) bnDecide(k kind) (fail, corrupt bool, head uint64) {
 	switch {
 	case fail:
 		h.bnCalls[string(k)+"/fail"]++
+		if h.prefetched[fmt.Sprintf("%s/%d", k, epoch)] {
+			h.bnCalls["failed_scheduler_fetch_for_epoch_partly_cached_by_foreign_user"]++
+		}
 	case corrupt:
 		h.bnCalls[string(k)+"/corrupt"]++
 	default:
@@ -224,8 +239,8 @@ func (h *harness) countServed(key string, n int) {
 
 // --- beacon node stub (below the caches) ---
 
-func (h *harness) bnValidators(_ context.Context, opts *eth2api.ValidatorsOpts) (map[eth2p0.ValidatorIndex]*eth2v1.Validator, error) {
-	fail, _, head := h.bnDecide(kVals)
+func (h *harness) bnValidators(ctx context.Context, opts *eth2api.ValidatorsOpts) (map[eth2p0.ValidatorIndex]*eth2v1.Validator, error) {
+	fail, _, head := h.bnDecide(ctx, kVals, 0)
 	if fail {
 		return nil, errInjected
 	}
@@ -284,8 +299,8 @@ func (h *harness) corruptPub(v *mval) eth2p0.BLSPubKey {
 	return pk
 }
 
-func (h *harness) bnAttester(_ context.Context, epoch eth2p0.Epoch, indices []eth2p0.ValidatorIndex) ([]*eth2v1.AttesterDuty, error) {
-	fail, corrupt, _ := h.bnDecide(kAtt)
+func (h *harness) bnAttester(ctx context.Context, epoch eth2p0.Epoch, indices []eth2p0.ValidatorIndex) ([]*eth2v1.AttesterDuty, error) {
+	fail, corrupt, _ := h.bnDecide(ctx, kAtt, uint64(epoch))
 	if fail {
 		return nil, errInjected
 	}
@@ -320,8 +335,8 @@ func (h *harness) bnAttester(_ context.Context, epoch eth2p0.Epoch, indices []et
 	return out, nil
 }
 
-func (h *harness) bnProposer(_ context.Context, epoch eth2p0.Epoch, indices []eth2p0.ValidatorIndex) ([]*eth2v1.ProposerDuty, error) {
-	fail, corrupt, _ := h.bnDecide(kPro)
+func (h *harness) bnProposer(ctx context.Context, epoch eth2p0.Epoch, indices []eth2p0.ValidatorIndex) ([]*eth2v1.ProposerDuty, error) {
+	fail, corrupt, _ := h.bnDecide(ctx, kPro, uint64(epoch))
 	if fail {
 		return nil, errInjected
 	}
@@ -356,8 +371,8 @@ func (h *harness) bnProposer(_ context.Context, epoch eth2p0.Epoch, indices []et
 	return out, nil
 }
 
-func (h *harness) bnSync(_ context.Context, epoch eth2p0.Epoch, indices []eth2p0.ValidatorIndex) ([]*eth2v1.SyncCommitteeDuty, error) {
-	fail, corrupt, _ := h.bnDecide(kSync)
+func (h *harness) bnSync(ctx context.Context, epoch eth2p0.Epoch, indices []eth2p0.ValidatorIndex) ([]*eth2v1.SyncCommitteeDuty, error) {
+	fail, corrupt, _ := h.bnDecide(ctx, kSync, uint64(epoch))
 	if fail {
 		return nil, errInjected
 	}
@@ -786,8 +801,9 @@ const wallSized = 365 * 24 * time.Hour
 
 // schedClock is the clock handed to the scheduler: the case's FakeClock, plus two things.
 //
-// (1) It counts the slot ticker's timer registrations, so that the driver of early-fetch cases knows
-// that the ticker is armed for the next slot before it moves the clock in sub-slot steps.
+// (1) It counts the slot ticker's timer registrations (one per emitted tick, also when the duration is
+// not positive and the timer fires at once), so that the driver knows, without any wait on real time,
+// that the ticker has armed itself for the next slot and whether it sleeps or already queued a tick.
 //
 // (2) The attester wait of the early-fetch path is `s.clock.After(time.Until(deadline))`
 // (scheduler.go waitForEarlyFetchOrTimeout): the duration is measured on the WALL clock although the
@@ -800,6 +816,7 @@ type schedClock struct {
 	*clockwork.FakeClock
 
 	tickerArms   atomic.Int64
+	lastTickerD  atomic.Int64 // duration of the ticker's latest timer: <= 0 means it fired at once (a tick is queued)
 	fallbackArms atomic.Int64
 }
 
@@ -812,6 +829,7 @@ func (c *schedClock) After(d time.Duration) <-chan time.Time {
 		return ch
 	}
 	ch := c.FakeClock.After(d)
+	c.lastTickerD.Store(int64(d))
 	c.tickerArms.Add(1)
 
 	return ch
